@@ -47,7 +47,8 @@ pub struct RcCase {
     /// concurrent mode: request i is issued this many ms after the start (missing = 0)
     #[serde(default)]
     pub starts: Vec<u64>,
-    /// builder call order (gen::apply_in_order); bit 7: decoy values set first
+    /// builder call order (gen::apply_in_order); bit 7: decoy values set first; bit 6: inner calls
+    /// use up the cooperative budget in the poll they complete in
     #[serde(default)]
     pub setter_order: u8,
     /// sequential requests; per request a script of (latency ms, outcome: 0 ok, 1 reconnectable, 2 other error)
@@ -76,7 +77,7 @@ fn case_strategy(_tier: Tier) -> BoxedStrategy<RcCase> {
         prop_oneof![5 => Just(1u64), 1 => Just(2u64), 1 => Just(5u64), 1 => 2u64..=40],
         (
             prop_oneof![1 => Just(vec![]), 2 => prop::collection::vec(prop_oneof![1 => Just(0u64), 2 => 0u64..=25], 3)],
-            prop_oneof![2 => Just(0u8), 1 => 0u8..8, 1 => 128u8..136],
+            prop_oneof![2 => Just(0u8), 1 => 0u8..8, 1 => 128u8..136, 1 => 64u8..72],
         ),
     )
         .prop_map(|(max_attempts, policy, retry_on_reconnect, predicate, mut requests, concurrent, step_ms, (starts, setter_order))| {
@@ -170,7 +171,7 @@ async fn interp(case: &RcCase) -> Verdict {
             i as u32,
             s.iter()
                 .map(|&(lat, o)| Step {
-                    lat: Lat::Ms(lat),
+                    lat: if case.setter_order & 64 != 0 { Lat::MsDrain(lat) } else { Lat::Ms(lat) },
                     out: if o == 0 { Out::Ok } else { Out::Err(o as u32) },
                 })
                 .collect(),
@@ -212,7 +213,7 @@ async fn interp(case: &RcCase) -> Verdict {
                 }
             }),
         ],
-        case.setter_order & 127,
+        case.setter_order & 63,
     );
     let layer = ReconnectLayer::new(b.build());
     let state = layer.state().clone();
